@@ -47,7 +47,9 @@ func init() {
 		"(reflect.Value).FieldByName":   ext۰reflect۰Value۰FieldByName,
 		"(reflect.rtype).FieldByName":   ext۰reflect۰rtype۰FieldByName,
 		"reflect.DeepEqual":             ext۰reflect۰DeepEqual,
-		"(reflect.Value).CanSet":        func(fr *frame, a []value) value { return false },
+		"(reflect.Value).CanSet":        ext۰reflect۰Value۰CanSet,
+		"(reflect.Value).Set":           ext۰reflect۰Value۰Set,
+		"(reflect.Value).Addr":          ext۰reflect۰Value۰Addr,
 		"(reflect.Value).Comparable":    func(fr *frame, a []value) value { return types.Comparable(rV2T(a[0]).t) },
 		"(reflect.Value).Slice":         ext۰reflect۰Value۰Slice,
 		"(reflect.Value).MapRange":      ext۰reflect۰Value۰MapRange,
@@ -87,6 +89,8 @@ func init() {
 		"reflect.MakeSlice":             ext۰reflect۰MakeSlice,
 		"reflect.MakeMap":               ext۰reflect۰MakeMap,
 		"reflect.Append":                ext۰reflect۰Append,
+		"reflect.AppendSlice":           ext۰reflect۰AppendSlice,
+		"(reflect.Value).Slice3":        ext۰reflect۰Value۰Slice3,
 		"(reflect.StructTag).Get":       ext۰reflect۰StructTag۰Get,
 
 		"math.Float32bits":     ext۰math۰Float32bits,
